@@ -233,7 +233,7 @@ func genPlan(r *Rng, focus string) *runPlan {
 		if c.TimeoutMs == 0 {
 			c.TimeoutMs = 8
 		}
-		c.Early = false
+		c.Early = r.Chance(40) // contexts and parentage are decided the same way when callers do not wait
 		nCallers = 2 + r.Intn(4)
 		shareCtx = r.Chance(15)
 		cancelPct = 35
